@@ -1,2 +1,2 @@
 """names of the contract modules (importable without z3)."""
-CONTRACT_MODULES = ["slicing", "slicing_l2", "chunks", "rechunk", "transfer", "materialize", "objects_l2", "fromarray", "windows", "blockids", "store", "reductions"]
+CONTRACT_MODULES = ["slicing", "slicing_l2", "chunks", "rechunk", "transfer", "materialize", "objects_l2", "fromarray", "windows", "blockids", "store", "reductions", "setitem"]
